@@ -194,7 +194,7 @@ func c14(p *Pkg, _ *Pkg, payload json.RawMessage, res *Result) {
 			// (4) header sweep: each declared header and each credential header absent / empty / twice / huge
 			names := append(append([]string{}, op.HNames...), pl.Creds...)
 			for _, hn := range names {
-				for _, variant := range []string{"absent", "empty", "twice", "huge", "garbage"} {
+				for _, variant := range []string{"absent", "empty", "twice", "huge", "garbage", "scheme-only", "scheme-lower", "scheme-space", "spaces", "comma"} {
 					h := mkHdr(op)
 					switch variant {
 					case "absent":
@@ -207,6 +207,16 @@ func c14(p *Pkg, _ *Pkg, payload json.RawMessage, res *Result) {
 						h.Set(hn, strings.Repeat("9", 64<<10))
 					case "garbage":
 						h.Set(hn, "\x00\xff {]")
+					case "scheme-only":
+						h.Set(hn, "Bearer")
+					case "scheme-lower":
+						h.Set(hn, "bearer")
+					case "scheme-space":
+						h.Set(hn, "Bearer ")
+					case "spaces":
+						h.Set(hn, "   ")
+					case "comma":
+						h.Set(hn, ",")
 					}
 					try("header", op.Method, op.Path, op.Query, h, mkBody(op.Body, op.HasBody), base+" "+hn+"="+variant)
 				}
